@@ -14,6 +14,7 @@ import (
 	"strconv"
 	"strings"
 	"sync"
+	"time"
 
 	"github.com/btcsuite/btcd/btcec/v2"
 	"github.com/btcsuite/btcd/btcec/v2/ellswift"
@@ -92,7 +93,27 @@ func splitList(s, sep string) []string {
 
 // ---------------------------------------------------------------- exec (real code)
 
-func (P) Exec(line string) string {
+// Exec runs one case under a watchdog: real code that blocks or loops (on a mutated tree) must not
+// hang the run; the case then answers "timeout" (a mismatch with the reference).
+func (p P) Exec(line string) string {
+	done := make(chan string, 1)
+	go func() {
+		defer func() {
+			if r := recover(); r != nil {
+				done <- "panic"
+			}
+		}()
+		done <- p.exec(line)
+	}()
+	select {
+	case out := <-done:
+		return out
+	case <-time.After(120 * time.Second):
+		return "timeout"
+	}
+}
+
+func (P) exec(line string) string {
 	f := strings.Fields(line)
 	if len(f) < 2 || f[0] != "C19" {
 		return "bad-op"
